@@ -462,6 +462,7 @@ func (r *Ring) setRingStateFromDesc(ringDesc *Desc, updateMetrics, updateRegiste
 	writableInstancesWithTokensCountPerZone := ringDesc.writableInstancesWithTokensCountPerZone()
 	readOnlyInstances, oldestReadOnlyUpdatedTimestamp := ringDesc.readOnlyInstancesAndOldestReadOnlyUpdatedTimestamp()
 
+	verifhook.Point("ring.setRingStateFromDesc.computed")
 	r.mtx.Lock()
 	defer r.mtx.Unlock()
 	r.ringDesc = ringDesc
